@@ -45,7 +45,8 @@ LiveVariantNames(E) ==
   LET idx == SelectSeq([i \in 1..Len(E.variants) |-> i], LAMBDA i : ~E.variants[i].skip)
   IN [k \in 1..Len(idx) |-> VariantName(E, E.variants[idx[k]])]
 
-RECURSIVE MistakesStruct(_, _, _, _, _, _), ConvMistakes(_, _, _, _, _), EnumMistakes(_, _, _, _), MapMistakes(_, _, _)
+RECURSIVE MistakesStruct(_, _, _, _, _, _), ConvMistakes(_, _, _, _, _), EnumMistakes(_, _, _, _), MapMistakes(_, _, _),
+          MapItemMistakes(_, _, _)
 
 \* ips: sequence of [it, p] (item with its position); P: location path; encl: position of the
 \* enclosing item (<<>> at the root of an attribute set)
@@ -66,6 +67,7 @@ MistakesStruct(S, rule, ips, P, encl, outer) ==
         ELSE <<MU(it.name, P, p, AddrNames(S, rule) \o outer)>>
       unclaimed == SelectSeq(ips, LAMBDA x : x.it.k = "meta" /\ ArmOf(S, rule, x.it.name) = 0)
       flat == IF FlattenIdx(S) = 0 THEN <<>>
+              ELSE IF S.fields[FlattenIdx(S)].ty.k = "map" THEN MapItemMistakes(unclaimed, P, encl)   \* a map takes every name
               ELSE LET T == D(S.fields[FlattenIdx(S)].ty.id) IN MistakesStruct(T, T.rename_all, unclaimed, P, encl, AddrNames(S, rule) \o outer)
       mentioned(i) == \E k \in 1..n : arm(k) = i
       missing(i) ==
@@ -120,17 +122,21 @@ EnumMistakes(E, it, p, Pf) ==
                     THEN MistakesStruct(D(v.sid), EnumRule(E), WithPos(x.items, q), Append(Pf, nm), q, <<>>)
                     ELSE <<M("other", "", Pf, q, FALSE)>>
 
-\* C14's reading of a string-keyed map of Val, as mistakes
+\* C14's reading of a string-keyed map of Val, as mistakes.  ips: the items with their positions; p: the position
+\* of the map item itself (a literal is reported about it)
+MapItemMistakes(ips, Pf, p) ==
+  LET n == Len(ips)
+      per(j) ==
+        LET x == ips[j].it q == ips[j].p IN
+        IF x.k = "lit" THEN <<M("other", "", Pf, p, FALSE)>>      \* reported about the map item itself
+        ELSE (IF \E i \in 1..(j-1) : ips[i].it.k = "meta" /\ ips[i].it.name = x.name
+              THEN <<M("dup", x.name, Pf, q, FALSE)>> ELSE <<>>)
+             \o (IF ConvVal(x, q).ok THEN <<>> ELSE <<M("other", "", Append(Pf, x.name), q, FALSE)>>)
+  IN ConcatAll([j \in 1..n |-> per(j)])
+
 MapMistakes(it, p, Pf) ==
   IF it.form # "list" THEN <<M("other", "", Pf, p, FALSE)>>
-  ELSE LET n == Len(it.items)
-           per(j) ==
-             LET x == it.items[j] q == Append(p, j) IN
-             IF x.k = "lit" THEN <<M("other", "", Pf, p, FALSE)>>      \* reported about the map item itself
-             ELSE (IF \E i \in 1..(j-1) : it.items[i].k = "meta" /\ it.items[i].name = x.name
-                   THEN <<M("dup", x.name, Pf, q, FALSE)>> ELSE <<>>)
-                  \o (IF ConvVal(x, q).ok THEN <<>> ELSE <<M("other", "", Append(Pf, x.name), q, FALSE)>>)
-       IN ConcatAll([j \in 1..n |-> per(j)])
+  ELSE MapItemMistakes(WithPos(it.items, p), Pf, p)
 
 -----------------------------------------------------------------------------
 (* C01: the value of a mistake-free input, field by field                  *)
@@ -177,7 +183,8 @@ ExpectedStruct(S, rule, items) ==
       unclaimed == SelectSeq(items, LAMBDA x : x.k = "meta" /\ ArmOf(S, rule, x.name) = 0)
       fieldValue(i) ==
         LET f == S.fields[i] h == hits(i) IN
-        IF f.flatten THEN ExpectedStruct(D(f.ty.id), D(f.ty.id).rename_all, unclaimed)
+        IF f.flatten /\ f.ty.k = "map" THEN <<"#map">> \o [j \in 1..Len(unclaimed) |-> <<unclaimed[j].name, unclaimed[j].val>>]
+        ELSE IF f.flatten THEN ExpectedStruct(D(f.ty.id), D(f.ty.id).rename_all, unclaimed)
         ELSE IF f.multiple THEN
           (IF h = <<>> /\ DefaultKind(S, f) # "none" THEN DefaultValue(S, f)
            ELSE [k \in 1..Len(h) |-> ValueOf(f, ElemTy(f), h[k])])          \* every occurrence, source order
